@@ -65,6 +65,8 @@ type Config struct {
 	CrosschainParams func(chain string, p *crosschaintypes.Params)
 	// AppOpts are passed as viper keys to app.New (bypass-min-fee settings etc.).
 	AppOpts map[string]interface{}
+	// MinGasPrices is the node's minimum gas price setting (CheckTx only), e.g. "4000000000000FX".
+	MinGasPrices string
 	// KeepInflation leaves the default mint parameters (otherwise inflation is zero).
 	KeepInflation bool
 	// KeepFees leaves the default fee market (otherwise base fee / min gas price are zero).
@@ -141,7 +143,11 @@ func New(cfg Config) *Chain {
 		panic(err)
 	}
 	defer os.RemoveAll(home)
-	c.App = app.New(log.NewNopLogger(), dbm.NewMemDB(), nil, true, map[int64]bool{}, home, v, baseapp.SetChainID(ChainID))
+	opts := []func(*baseapp.BaseApp){baseapp.SetChainID(ChainID)}
+	if cfg.MinGasPrices != "" {
+		opts = append(opts, baseapp.SetMinGasPrices(cfg.MinGasPrices))
+	}
+	c.App = app.New(log.NewNopLogger(), dbm.NewMemDB(), nil, true, map[int64]bool{}, home, v, opts...)
 
 	for i := 0; i < cfg.NumVals; i++ {
 		ck := ConsKey(cfg.Seed, i)
